@@ -10,7 +10,7 @@ import RotondaModel.Model.UnitMetrics
      output per event `R=<ingress>:<n>,… tot=<n> g=<updates>.<dropped>.<updated> txt=<chars>:<fnv1a hex>`
 `a|<src>;<src>…`   `Collection`: sources in registration order, `<src>` = `<name idx>.<kind>.<state…>`
      kinds `m.<up>.<lost>.<errs>.<infl>.<perr>.<topic idx>=<n>&…` mqtt record, `f.<total>.<ingress>=<n>&…` filter record
-     (fresh gate), `g.<updates>.<dropped>` gate; output `order=<name idx>,… txt=<chars>:<fnv1a hex> uniq=<0|1> conflict=<0|1>`
+     (fresh gate), `t` the tokio task metrics (nothing instrumented), `g.<updates>.<dropped>` gate; output `order=<name idx>,… txt=<chars>:<fnv1a hex> uniq=<0|1> conflict=<0|1>`
 Flags: `void= retry= cred=` (MqttConn variants), `promescape= promgroup= lostcount=` `as-written|repaired`.
 -/
 open Rotonda.UnitMetrics
@@ -154,6 +154,9 @@ def parseSrc (s : String) : Option (Nat × Source) :=
     let n ← n.toNat?
     let r : FilterRec := ⟨← parseKV rs, ← tot.toNat?⟩
     some (n, ⟨unitNames.getD n [], fun u => filterCalls u GateRec.zero ['0'] r⟩)
+  | [n, "t"] => do
+    let n ← n.toNat?
+    some (n, ⟨unitNames.getD n [], fun u => tokioCalls u⟩)
   | [n, "g", up, dr] => do
     let n ← n.toNat?
     let g : GateRec := ⟨← up.toNat?, ← dr.toNat?, 0, (← up.toNat?) > 0⟩
